@@ -87,8 +87,28 @@ def gen_div(r, nd=None, solve=False):
             b = [r.randint(0, n - 1) for n in nxg]
         f = [V.dyadic(r, -16, 16) for _ in range(nd)]
         ev.append((b, f))
+    ramp = False
+    if not solve and r.random() < 0.3:
+        # aim at the smoothing ramp: neighbouring bins whose counts sit on minSamples, minSamples+1, fullSamples-1,
+        # fullSamples, fullSamples+1 and 0 (a bin below minSamples next to bins above it), smoothed gradients
+        ramp = True
+        hs, sm = True, (r.random() < 0.8)
+        fulls = r.choice([3, 4, 5])
+        mins = r.randint(0, fulls - 2)
+        nxg = [max(n, 2) for n in nxg]
+        targets = [mins, mins + 1, fulls - 1, fulls, fulls + 1, 0, 1]
+        import itertools
+        bins = list(itertools.product(*[range(n) for n in nxg]))
+        r.shuffle(bins)
+        ev = []
+        for b, cnt in zip(bins, targets * 4):
+            for _ in range(cnt):
+                ev.append((list(b), [V.dyadic(r, -16, 16) for _ in range(nd)]))
+        r.shuffle(ev)
+        npre = r.choice([0, 0, min(3, len(ev))])
+        nev = len(ev) - npre
     return {"nd": nd, "per": per, "nxg": nxg, "w": w, "hs": int(hs), "sm": int(sm), "mins": mins, "fulls": fulls,
-            "npre": npre, "nev": nev, "ev": ev}
+            "npre": npre, "nev": nev, "ev": ev, "ramp": ramp}
 
 
 def div_line(c, cmd="DIV", tail=""):
@@ -488,6 +508,8 @@ def check(run):
         run.dist("div:smoothed=%d" % c["sm"])
         run.dist("div:min_bins_per_dim=%d" % min(c["nxg"]))
         run.dist("div:anisotropic=%d" % (len(set(c["w"])) > 1))
+        if c.get("ramp"):
+            run.dist("div:counts-on-the-smoothing-ramp,smoothed=%d" % c["sm"])
         tie("div", l1, io1, mo1)
         tie("div", l2, io2, mo2)
         for (l, io) in ((l1, io1), (l2, io2)):
@@ -600,6 +622,10 @@ def check(run):
             run.violation("solve:not-finite", "integrate() returned a non-finite surface [case: %s]" % l[:400], {"kind": "unit", "case": l, "impl": so[:2000]})
             continue
         rn = math.sqrt(sum((float(u) - v) ** 2 for u, v in zip(Ax, b)))
+        # envelope of |true residual - recurred residual| / |b| by iteration count (floating-point drift; recorded, not judged)
+        bucket = "1-4" if it <= 4 else "5-16" if it <= 16 else "17-64" if it <= 64 else "65+"
+        dr = run.cov["correspondence"].setdefault("residual_drift_envelope", {})
+        dr[bucket] = max(dr.get(bucket, 0.0), abs(rn / bn - err))
         if conv and not (err <= tol):
             run.violation("solve:stopped-early", "integrate() stopped after %d < %d iterations with reported error %g > tol [case: %s]" % (it, itmax, err, l[:400]),
                           {"kind": "unit", "case": l, "impl": so[:2000]})
@@ -671,11 +697,74 @@ def check(run):
                 run.mismatch("refused-shape", l, go[0], gm[0] if gm else None)
 
     # ---------------- numerical experiment: second-order convergence to a smooth surface (up to a constant)
+    cubic_exactness(run, unit, model, r, quick)
     conv_experiment(run, unit, r, quick)
     # ---------------- end to end: ABF through the engine simulator, the files it writes
     e2e(run, r, quick, exes["c16e2e"], model)
+    shared_abf(run, r, quick)
     run.cov["correspondence"].update({"oned_ti_cases": len(cases), "div_cases": len(dlines), "atimes_cases": len(alines),
                                       "solve_cases": len(slines), "solve_converged": nconv})
+
+
+def cubic_exactness(run, unit, model, r, quick):
+    """C16_scheme_exact_on_cubics on the implementation: gradients of a random polynomial of total degree <= 3 at the bin
+    centres (one sample per bin, no count grid); at every interior PMF node set_div must equal atimes of the node samples
+    (dyadic coefficients, power-of-two widths: exact up to rounding of sums)."""
+    import itertools
+    ncase = 16 if quick else 200
+    for cidx in range(ncase):
+        nd = r.choice([2, 2, 3])
+        per = [int(r.random() < 0.4) for _ in range(nd)]
+        nxg = [r.randint(3, 5 if nd == 2 else 4) for _ in range(nd)]
+        w = r.sample(WIDTHS_P2, nd)
+        org = [V.dyadic(r, -2, 2, 2) for _ in range(nd)]
+        mons = [m for m in itertools.product(range(4), repeat=nd) if sum(m) <= 3]
+        coef = {m: Fr(V.dyadic(r, -4, 4, 2)) for m in mons}
+        def U(x):
+            tot = Fr(0)
+            for m, c in coef.items():
+                t = c
+                for e, v in zip(m, x):
+                    t *= v ** e
+                tot += t
+            return tot
+        def dU(x, d):
+            tot = Fr(0)
+            for m, c in coef.items():
+                if m[d] == 0:
+                    continue
+                t = c * m[d]
+                for k, (e, v) in enumerate(zip(m, x)):
+                    t *= v ** (e - 1 if k == d else e)
+                tot += t
+            return tot
+        ev = []
+        for b in itertools.product(*[range(n) for n in nxg]):
+            xc = [Fr(org[d]) + (Fr(b[d]) + Fr(1, 2)) * Fr(w[d]) for d in range(nd)]
+            ev.append((list(b), [float(-dU(xc, d)) for d in range(nd)]))      # acc_force sums the opposite of the force
+        c = {"nd": nd, "per": per, "nxg": nxg, "w": w, "hs": 0, "sm": 0, "mins": 0, "fulls": 1, "npre": len(ev), "nev": 0, "ev": ev}
+        nxp = [n if p else n + 1 for n, p in zip(nxg, per)]
+        nodes = list(itertools.product(*[range(n) for n in nxp]))
+        samples = [float(U([Fr(org[d]) + Fr(q[d]) * Fr(w[d]) for d in range(nd)])) for q in nodes]
+        l1 = div_line(c)
+        l2 = atimes_line({"nd": nd, "per": per, "nxp": nxp, "w": w}, samples)
+        rc, out, e = V.run_lines(unit, [l1, l2])
+        run.count("cubic:" + l1[:200], True)
+        run.dist("cubic:nd=%d" % nd)
+        if len(out) != 2:
+            run.violation("unit:crash", "the C16 unit driver died in the cubic stream (rc=%d): %s" % (rc, e[-300:]), {"kind": "unit", "case": l1})
+            return
+        div = parse_floats(split_bar(out[0])[1])
+        lap = parse_floats(out[1].split("|")[0].split()[1:])
+        scale = max([1.0] + [abs(v) for v in div] + [abs(v) for v in lap])
+        bad = [(q, a, b) for q, a, b in zip(nodes, div, lap)
+               if all(1 <= q[d] <= nxp[d] - 2 for d in range(nd)) and abs(a - b) > 1e-9 * scale]
+        ninner = sum(1 for q in nodes if all(1 <= q[d] <= nxp[d] - 2 for d in range(nd)))
+        run.dist("cubic:interior-nodes", ninner)
+        if bad:
+            run.violation("cubic:not-exact", "gradients of a cubic polynomial: at interior node %s the divergence is %r but the Laplacian of the node samples is %r "
+                          "(the scheme must be exact on cubics) [cases: %s // %s]" % (bad[0][0], bad[0][1], bad[0][2], l1[:300], l2[:200]),
+                          {"kind": "unit", "case": l1, "case2": l2, "impl": out[0][:2000], "impl2": out[1][:2000]})
 
 
 def conv_experiment(run, unit, r, quick):
@@ -854,74 +943,158 @@ def e2e(run, r, quick, exe=None, model=None):
         if c.get("freq"):
             run.dist("e2e:written-by-outputFreq")
         for gext, pext, cext in pairs:
-            try:
-                nd, gdims, grows = read_multicol(os.path.join(d, c["id"] + gext))
-                _, pdims, prows = read_multicol(os.path.join(d, c["id"] + pext))
-                _, cdims, crows = read_multicol(os.path.join(d, c["id"] + cext))
-            except (OSError, ValueError, IndexError) as ex:
-                run.violation("e2e:files", "missing or unreadable %s/%s/%s after the run: %s" % (gext, pext, cext, ex), rep)
-                continue
-            per = [g[3] for g in gdims]
-            nxg = [g[2] for g in gdims]
-            w = [g[1] for g in gdims]
-            nxp = [n if p else n + 1 for n, p in zip(nxg, per)]
-            pm = [row[nd] for row in prows]
-            if [p[2] for p in pdims] != nxp or len(pm) != len(list(itertools.product(*[range(n) for n in nxp]))):
-                run.violation("e2e:pmf-shape", "PMF grid %s for gradient grid %s periodic %s" % ([p[2] for p in pdims], nxg, per), rep)
-                continue
-            if any(abs(pd[0] - (gd[0] - 0.5 * gd[1])) > 1e-12 for pd, gd in zip(pdims, gdims)):
-                run.violation("e2e:pmf-origin", "PMF grid is not shifted by half a bin: %s vs %s" % (pdims, gdims), rep)
-            grad = {}
-            for row, ix in zip(grows, itertools.product(*[range(n) for n in nxg])):
-                grad[ix] = row[nd:2 * nd]
-            nsamp = sum(int(row[nd]) for row in crows)
-            if not finite(pm) or not all(finite(v) for v in grad.values()):
-                run.violation("e2e:not-finite", "the written PMF or gradients contain non-finite values [%s]" % c["id"], rep)
-                continue
-            if abs(min(pm)) > 1e-12:
-                run.violation("e2e:minimum", "the written PMF has minimum %r instead of 0" % min(pm), rep)
-            if nd == 1:
-                g = [grad[(i,)][0] for i in range(nxg[0])]
-                corr = sum(g) / len(g) if per[0] else 0.0
-                acc, exp = 0.0, []
-                for i in range(nxp[0]):
-                    exp.append(acc)
-                    if i < nxg[0]:
-                        acc += (g[i] - corr) * w[0]
-                mn = min(exp)
-                if any(not close(a, b - mn, 1e-10) for a, b in zip(pm, exp)):
-                    run.violation("e2e:pmf-1d", "written 1-D PMF %s is not the cumulative sum %s of the written gradients" % (pm, [b - mn for b in exp]), rep)
-                if per[0] and not close(acc, 0.0, 1e-10):
-                    run.violation("e2e:pmf-1d-periodic", "cumulative sum over the period is %r" % acc, rep)
-                continue
-            def gr(ix):
-                q = []
-                for dd in range(nd):
-                    i = ix[dd]
-                    if per[dd]:
-                        i %= nxg[dd]
-                    elif i < 0 or i >= nxg[dd]:
-                        return [0.0] * nd
-                    q.append(i)
-                return grad[tuple(q)]
-            bvec = []
-            for p in itertools.product(*[range(n) for n in nxp]):
-                tot = 0.0
-                for dd in range(nd):
-                    acc = 0.0
-                    for off in itertools.product(*[(-1, 0)] * nd):
-                        gg = gr([p[q] + off[q] for q in range(nd)])
-                        acc += gg[dd] if off[dd] == 0 else -gg[dd]
-                    tot += acc / w[dd]
-                bvec.append(tot / (2 ** (nd - 1)))
-            Ax = [float(v) for v in lap_oracle({"nd": nd, "per": per, "nxp": nxp, "w": w}, pm)]
-            bn = math.sqrt(sum(v * v for v in bvec))
-            rn = math.sqrt(sum((u - v) ** 2 for u, v in zip(Ax, bvec)))
-            if not (rn <= 1e-4 * bn + 1e-10):
-                run.violation("e2e:poisson", "written PMF: |Laplacian(pmf) - divergence(written gradients)| = %g > 1e-4 |divergence| = %g (%d samples) [%s]"
-                              % (rn, 1e-4 * bn, nsamp, c["id"] + pext), rep)
-            if k == 0:
-                run.sample({"e2e_scenario": e2e_scenario(c)[:40], "pmf": pm[:12]})
+            file_oracle(run, d, c["id"], gext, pext, cext, rep)
+        if k == 0:
+            run.sample({"e2e_scenario": e2e_scenario(c)[:40]})
+
+
+def file_oracle(run, d, stem, gext, pext, cext, rep):
+    """oracle on written files alone: <stem><pext> solves the discrete problem of <stem><gext> / <stem><cext>"""
+    import itertools
+    try:
+        nd, gdims, grows = read_multicol(os.path.join(d, stem + gext))
+        _, pdims, prows = read_multicol(os.path.join(d, stem + pext))
+        _, cdims, crows = read_multicol(os.path.join(d, stem + cext))
+    except (OSError, ValueError, IndexError) as ex:
+        run.violation("e2e:files", "missing or unreadable %s/%s/%s after the run: %s" % (gext, pext, cext, ex), rep)
+        return
+    per = [g[3] for g in gdims]
+    nxg = [g[2] for g in gdims]
+    w = [g[1] for g in gdims]
+    nxp = [n if p else n + 1 for n, p in zip(nxg, per)]
+    pm = [row[nd] for row in prows]
+    if [p[2] for p in pdims] != nxp or len(pm) != len(list(itertools.product(*[range(n) for n in nxp]))):
+        run.violation("e2e:pmf-shape", "PMF grid %s for gradient grid %s periodic %s" % ([p[2] for p in pdims], nxg, per), rep)
+        return
+    if any(abs(pd[0] - (gd[0] - 0.5 * gd[1])) > 1e-12 for pd, gd in zip(pdims, gdims)):
+        run.violation("e2e:pmf-origin", "PMF grid is not shifted by half a bin: %s vs %s" % (pdims, gdims), rep)
+    grad = {}
+    for row, ix in zip(grows, itertools.product(*[range(n) for n in nxg])):
+        grad[ix] = row[nd:2 * nd]
+    nsamp = sum(int(row[nd]) for row in crows)
+    if not finite(pm) or not all(finite(v) for v in grad.values()):
+        run.violation("e2e:not-finite", "the written PMF or gradients contain non-finite values [%s]" % stem, rep)
+        return
+    if abs(min(pm)) > 1e-12:
+        run.violation("e2e:minimum", "the written PMF has minimum %r instead of 0" % min(pm), rep)
+    if nd == 1:
+        g = [grad[(i,)][0] for i in range(nxg[0])]
+        corr = sum(g) / len(g) if per[0] else 0.0
+        acc, exp = 0.0, []
+        for i in range(nxp[0]):
+            exp.append(acc)
+            if i < nxg[0]:
+                acc += (g[i] - corr) * w[0]
+        mn = min(exp)
+        if any(not close(a, b - mn, 1e-10) for a, b in zip(pm, exp)):
+            run.violation("e2e:pmf-1d", "written 1-D PMF %s is not the cumulative sum %s of the written gradients" % (pm, [b - mn for b in exp]), rep)
+        if per[0] and not close(acc, 0.0, 1e-10):
+            run.violation("e2e:pmf-1d-periodic", "cumulative sum over the period is %r" % acc, rep)
+        return
+    def gr(ix):
+        q = []
+        for dd in range(nd):
+            i = ix[dd]
+            if per[dd]:
+                i %= nxg[dd]
+            elif i < 0 or i >= nxg[dd]:
+                return [0.0] * nd
+            q.append(i)
+        return grad[tuple(q)]
+    bvec = []
+    for p in itertools.product(*[range(n) for n in nxp]):
+        tot = 0.0
+        for dd in range(nd):
+            acc = 0.0
+            for off in itertools.product(*[(-1, 0)] * nd):
+                gg = gr([p[q] + off[q] for q in range(nd)])
+                acc += gg[dd] if off[dd] == 0 else -gg[dd]
+            tot += acc / w[dd]
+        bvec.append(tot / (2 ** (nd - 1)))
+    Ax = [float(v) for v in lap_oracle({"nd": nd, "per": per, "nxp": nxp, "w": w}, pm)]
+    bn = math.sqrt(sum(v * v for v in bvec))
+    rn = math.sqrt(sum((u - v) ** 2 for u, v in zip(Ax, bvec)))
+    if not (rn <= 1e-4 * bn + 1e-10):
+        run.violation("e2e:poisson", "written PMF: |Laplacian(pmf) - divergence(written gradients)| = %g > 1e-4 |divergence| = %g (%d samples) [%s]"
+                      % (rn, 1e-4 * bn, nsamp, stem + pext), rep)
+
+
+def shared_abf(run, r, quick):
+    """multiple-walker (shared) ABF through the walker harness of C14 (socket replica interface): 2-3 walkers in lock step,
+    gradients exchanged every sharedFreq steps; at the end every walker writes its LOCAL grids and local_pmf
+    (<prefix>.count/.grad/.pmf, integrated from set_div) and walker 0 the collected ones (<prefix>.all.*, divergence kept
+    incrementally and re-set after every exchange).  Same file oracle as for a single walker."""
+    import importlib.util, shutil
+    sp = os.path.join(V.ROOT, "props", "C14")
+    try:
+        sys.path.insert(0, sp)
+        import walkers as W
+    except Exception as ex:
+        run.notes.append("shared ABF stream skipped: cannot import props/C14/walkers.py (%s)" % ex)
+        return
+    finally:
+        if sp in sys.path:
+            sys.path.remove(sp)
+    try:
+        exe = V.build_prog("c14walk", ["props/C14/unit.cpp"])
+    except V.InfraError as ex:
+        run.notes.append("shared ABF stream skipped: c14walk does not build (%s)" % str(ex)[-200:])
+        return
+    base = os.path.join(V.BUILD, "scratch", "C16sh")
+    for k in range(2 if quick else 12):
+        n = r.choice([2, 2, 3])
+        nd = r.choice([2, 2, 3])
+        nb = [r.randint(2, 3) for _ in range(nd)]
+        wd = r.sample([0.5, 1.0, 0.25], nd)
+        F = r.choice([2, 3, 4])
+        nsteps = F * r.randint(2, 4) + r.randint(0, F - 1)
+        dirs = []
+        for i in range(n):
+            dd = os.path.join(base, "c%d" % k, "w%d" % i)
+            shutil.rmtree(dd, ignore_errors=True)
+            os.makedirs(dd)
+            dirs.append(dd)
+        conf = []
+        for d in range(nd):
+            conf += ["colvar {", "  name v%d" % d, "  lowerBoundary 0", "  upperBoundary %r" % (nb[d] * wd[d]), "  width %r" % wd[d],
+                     "  distanceZ {", "    main { atomNumbers %d }" % (d + 1), "    ref { dummyAtom (0,0,0) }", "    axis (0,0,1)",
+                     "    oneSiteTotalForce on", "  }", "}"]
+        conf += ["abf {", "  name a", "  colvars " + " ".join("v%d" % d for d in range(nd)), "  fullSamples 2", "  shared on", "  sharedFreq %d" % F, "}"]
+        setup_l = ["natoms %d" % nd, "samestep 1", "includecv 1", "prefix sh", "new", "config EOF"] + conf + ["EOF", "show cv 0 energy 0 bias 0 atomf 0"]
+        sched = [[[(r.randrange(nb[d]) + r.choice([0.25, 0.5, 0.75])) * wd[d] for d in range(nd)] for _ in range(n)] for _ in range(nsteps)]
+        forces = [[[V.dyadic(r, -8, 8) for d in range(nd)] for _ in range(n)] for _ in range(nsteps)]
+        rep = {"kind": "shared", "n": n, "setup": setup_l, "positions": sched, "forces": forces}
+        run.count("shared:%d" % k, True)
+        run.dist("shared-abf:n=%d,nd=%d,sharedFreq=%d" % (n, nd, F))
+        try:
+            with W.Team(exe, n, dirs, timeout_ms=8000) as T:
+                res = T.all_do(setup_l, 60.0)
+                if not all(any(x.startswith("CONFIG err=ok") for x in rr) for rr in res):
+                    run.violation("shared:config", "shared ABF configuration failed: %s" % res[0][-3:], rep)
+                    continue
+                for t in range(nsteps):
+                    def lines(i):
+                        L = []
+                        for d in range(nd):
+                            L.append("pos %d 0 0 %s" % (d + 1, V.hexf(sched[t][i][d])))
+                            L.append("eforce %d 0 0 %s" % (d + 1, V.hexf(forces[t][i][d])))
+                        return L + ["step"]
+                    T.all_do(lines, 60.0)
+                res = T.all_do(["postrun"], 60.0)
+                if not all(any(x.startswith("POSTRUN err=ok") for x in rr) for rr in res):
+                    run.violation("shared:postrun", "post_run of a shared ABF walker failed: %s" % [rr[-2:] for rr in res], rep)
+                    continue
+        except W.WalkerTimeout as ex:
+            run.notes.append("shared ABF case %d: walkers did not answer (%s); skipped" % (k, str(ex)[:100]))
+            run.dist("shared-abf:skipped-timeout")
+            continue
+        for i in range(n):
+            file_oracle(run, dirs[i], "sh", ".grad", ".pmf", ".count", dict(rep, walker=i, files="local"))
+        if os.path.exists(os.path.join(dirs[0], "sh.all.pmf")):
+            file_oracle(run, dirs[0], "sh.all", ".grad", ".pmf", ".count", dict(rep, walker=0, files="all"))
+            run.dist("shared-abf:collected-files-checked")
+        else:
+            run.violation("shared:files", "walker 0 did not write the collected sh.all.pmf", rep)
 
 
 def replay(path):
